@@ -8,7 +8,8 @@
    scanner takes as a real numeral ([real_numeral]: the number round trip is C10/C11's subject). *)
 From Coq Require Import NArith ZArith List Bool.
 From Qv Require Import gen.Tables_json JsonModel JsonSpec JsonProofsBase JsonProofsStr JsonProofsNum JsonProofsParse
-  JsonProofsComplete JsonProofsDoc JsonProofsInt JsonProofsWrite JsonProofsRoundtrip JsonProofsRfc JsonDigitExt JsonDigitRfc JsonDigitC06 JsonDigitC08.
+  JsonProofsComplete JsonProofsDoc JsonProofsInt JsonProofsWrite JsonProofsRoundtrip JsonProofsRfc JsonDigitExt JsonDigitRfc JsonDigitC06 JsonDigitC08 JsonDigitBig JsonDigitForms.
+From Qv Require JsonDigitAlpha JsonDigitForm JsonDigitShape JsonProofsNumAlpha DigitModel gen.Tables_digit.
 Import ListNotations.
 Local Open Scope N_scope.
 
@@ -84,6 +85,15 @@ Theorem c08_real_rfc_decided : forall txt, rfc_numb txt = true -> real_rfc txt.
 Proof. exact real_rfc_decided. Qed.
 Print Assumptions c08_real_rfc_decided.
 
+(* the leaf guard in grammar terms (JsonDigitForms.v, JsonDigitBig.v): vleafb holds exactly for the texts the independent RFC
+   recogniser accepts that are REAL TEXTS (a fraction or an exponent, or digits that do not fit the integer kind of their sign)
+   and that the scanner's range tests do not reject.  So an integral double printed as 5 is NOT a real leaf (it reads back as
+   the integer 5; the check's R kind compares number kinds loosely for that reason), while 1e+22 and 1.8446744073709552e+19 are *)
+Theorem c08_leaf_guard_in_grammar_terms : forall txt,
+  vleafb txt = true <-> rfc_numb txt = true /\ RfcRealText txt /\ real_in_range txt = true.
+Proof. exact vleafb_iff. Qed.
+Print Assumptions c08_leaf_guard_in_grammar_terms.
+
 (* leaves that are doubles: [dtext bits] is DigitModel.real_to_string (double, 17 digits, Default format); the per-leaf boolean
    [bits_leaf_okb bits] = vleafb (dtext bits) && "DigitModel.string_to_number (dtext bits) is a real with these bits" -- the last
    conjunct is the digit-level round trip, C11's subject (proved there for integers below 2^53, tested for the rest) *)
@@ -106,9 +116,62 @@ Theorem c08_doubles_example :
 Proof. split; [exact bits_ex_ok|exact bits_tree_roundtrip]. Qed.
 Print Assumptions c08_doubles_example.
 
-(* What remains a predicate / a gap: the SHAPE of what real_to_string emits (digits, optional point, optional e[+-]digits,
-   never empty, no inf / nan for finite inputs) is NOT proved from the formatter model: it is the per-leaf boolean
-   rfc_numb (dtext bits); the digit-level round trip is the per-leaf boolean in bits_leaf_okb (C11). *)
+(* the ALPHABET of the text of a double (JsonDigitAlpha.v), proved from the formatter model DigitModel.real_to_string (Default
+   format, ANY precision, any finite input -- the exponent field not all ones): decimal digits, the point, e, + and -.  So a real
+   leaf never contributes a quote, a bracket, a brace, a comma, a colon, a backslash or a blank to the text of the document *)
+Theorem c08_real_text_alphabet : forall fi number precision txt,
+  DigitModel.real_to_string fi [] number precision Tables_digit.rf_default = DigitModel.Ok txt ->
+  N.land number (DigitModel.fi_expmask fi) <> DigitModel.fi_expmask fi ->
+  Forall (fun c => JsonDigitAlpha.nch c = true) txt.
+Proof. exact JsonDigitAlpha.real_to_string_alphabet. Qed.
+Print Assumptions c08_real_text_alphabet.
+
+Theorem c08_real_text_not_structural : forall bits c, JsonDigitAlpha.finite_bits bits = true -> In c (dtext bits) ->
+  JsonProofsNumAlpha.plain c = true /\ is_ws c = false /\ c <> jc_comma /\ c <> jc_colon /\ c <> jc_bslash.
+Proof. exact JsonDigitAlpha.dtext_not_structural. Qed.
+Print Assumptions c08_real_text_not_structural.
+
+Theorem c08_real_text_example :
+  forallb (fun b => JsonDigitAlpha.finite_bits b && negb (match dtext b with [] => true | _ => false end)) bits_ex = true.
+Proof. exact JsonDigitAlpha.alpha_ex. Qed.
+Print Assumptions c08_real_text_example.
+
+(* the FORM of the text of a double (JsonDigitForm.v), proved from the formatter model (Default format, any precision, any finite
+   input):   [-] digits [ . digits ] [ e (+|-) digits+ ]   -- at most one point, never first in its group, the exponent part last *)
+Theorem c08_real_text_form : forall fi number precision txt,
+  DigitModel.real_to_string fi [] number precision Tables_digit.rf_default = DigitModel.Ok txt ->
+  N.land number (DigitModel.fi_expmask fi) <> DigitModel.fi_expmask fi ->
+  exists sg l, txt = sg ++ l /\ (sg = [] \/ sg = [Tables_digit.ch_neg]) /\ JsonDigitForm.Form l.
+Proof. exact JsonDigitForm.real_to_string_form. Qed.
+Print Assumptions c08_real_text_form.
+
+(* the form meets the reader (JsonDigitShape.v): a text of that form which starts with a digit after the optional minus
+   (head_digitb, the one fact about the start of the text that is not proved) is taken WHOLE by the number scanner, whatever may
+   follow a number in a document; with a point or an exponent in it (has_pointb) the verdict is Real, or NaN by the range tests;
+   so the reader-side half of the leaf guard, real_wholeb, is then the range test alone *)
+Theorem c08_double_text_taken_whole : forall bits, JsonDigitShape.finite_bits bits = true -> JsonDigitShape.head_digitb (dtext bits) = true ->
+  exists n, scan_number (dtext bits) = JOk n /\ whole n /\
+    forall rest, num_follow rest = true -> scan_number (dtext bits ++ rest) = JOk (ext_rest n rest).
+Proof. exact JsonDigitShape.dtext_taken_whole. Qed.
+Print Assumptions c08_double_text_taken_whole.
+
+Theorem c08_double_text_real : forall bits, JsonDigitShape.finite_bits bits = true -> JsonDigitShape.head_digitb (dtext bits) = true ->
+  JsonDigitShape.has_pointb (dtext bits) = true ->
+  (scan_number (dtext bits) = JOk (NumReal []) \/ scan_number (dtext bits) = JOk NumNaN) /\
+  real_wholeb (dtext bits) = real_in_range (dtext bits).
+Proof. intros bits H1 H2 H3. split; [apply JsonDigitShape.dtext_real|apply JsonDigitShape.dtext_wholeb]; assumption. Qed.
+Print Assumptions c08_double_text_real.
+
+Theorem c08_double_text_example :
+  forallb (fun b => JsonDigitShape.finite_bits b && JsonDigitShape.head_digitb (dtext b) && JsonDigitShape.has_pointb (dtext b)) bits_ex = true.
+Proof. exact JsonDigitShape.shape_ex. Qed.
+Print Assumptions c08_double_text_example.
+
+(* What remains a predicate / a gap.  Proved from the formatter model: the alphabet and the form above.  NOT proved: that the first
+   group of digits is not empty (head_digitb), that the group after the point is not empty, that there is no superfluous leading
+   zero -- these need the arithmetic of the formatter (the digit count estimate, the big-number division), which is C10's subject;
+   so RFC validity of a double leaf stays the per-leaf boolean rfc_numb (dtext bits) (c08_leaf_guard_in_grammar_terms), and the
+   digit-level round trip the per-leaf boolean in bits_leaf_okb (C11). *)
 
 (* NOT proved: reals -- that NumberToString(17) emits a real numeral of the RFC grammar which
    reads back to the same double (C10 / C11); the predicates real_numeral and real_rfc stand for it. *)
